@@ -1323,7 +1323,7 @@ func pickCrashPoint(r *vh.Rand, w *crashWorkload) int {
 	return r.Intn(total)
 }
 
-func genCrashCases(r *vh.Rand, tier string, n int) []string {
+func genCrashCasesBase(r *vh.Rand, tier string, n int) []string {
 	var out []string
 	if n > 0 {
 		// budget override of a search mode: n random single-point cases
